@@ -95,7 +95,11 @@ func (g *gen) intExpr(d int) string {
 			return "len(s0)"
 		}
 	}
-	switch g.ir(0, 12, "iop") {
+	iop := g.ir(0, 12, "iop")
+	if g.f.Yield && g.noYield == 0 && g.ir(0, 4, "yexpr") == 0 {
+		iop = 12
+	}
+	switch iop {
 	case 0:
 		return "lim(" + g.intExpr(d-1) + " + " + g.intExpr(d-1) + ")"
 	case 1:
@@ -225,7 +229,7 @@ func (g *gen) trace(tag string) {
 }
 
 func (g *gen) yieldStmt() {
-	if g.f.Yield && g.noYield == 0 && g.ir(0, 3, "ys") == 0 {
+	if g.f.Yield && g.noYield == 0 && g.ir(0, 1, "ys") == 0 {
 		g.w("yield(%d)", g.nsite)
 		g.nsite++
 		g.kind("yield-stmt")
